@@ -1213,20 +1213,23 @@ impl<'de, R: Read<'de>> Deserializer<R> {
     }
 
     fn ignore_integer(&mut self) -> Result<()> {
-        match tri!(self.next_char_or_null()) {
-            b'0' => {
+        match tri!(self.next_char()) {
+            Some(b'0') => {
                 // There can be only one leading '0'.
                 if let b'0'..=b'9' = tri!(self.peek_or_null()) {
                     return Err(self.peek_error(ErrorCode::InvalidNumber));
                 }
             }
-            b'1'..=b'9' => {
+            Some(b'1'..=b'9') => {
                 while let b'0'..=b'9' = tri!(self.peek_or_null()) {
                     self.eat_char();
                 }
             }
-            _ => {
+            Some(_) => {
                 return Err(self.error(ErrorCode::InvalidNumber));
+            }
+            None => {
+                return Err(self.error(ErrorCode::EofWhileParsingValue));
             }
         }
 
@@ -1247,7 +1250,10 @@ impl<'de, R: Read<'de>> Deserializer<R> {
         }
 
         if !at_least_one_digit {
-            return Err(self.peek_error(ErrorCode::InvalidNumber));
+            match tri!(self.peek()) {
+                Some(_) => return Err(self.peek_error(ErrorCode::InvalidNumber)),
+                None => return Err(self.peek_error(ErrorCode::EofWhileParsingValue)),
+            }
         }
 
         match tri!(self.peek_or_null()) {
@@ -1265,10 +1271,13 @@ impl<'de, R: Read<'de>> Deserializer<R> {
         }
 
         // Make sure a digit follows the exponent place.
-        match tri!(self.next_char_or_null()) {
-            b'0'..=b'9' => {}
-            _ => {
+        match tri!(self.next_char()) {
+            Some(b'0'..=b'9') => {}
+            Some(_) => {
                 return Err(self.error(ErrorCode::InvalidNumber));
+            }
+            None => {
+                return Err(self.error(ErrorCode::EofWhileParsingValue));
             }
         }
 
